@@ -55,7 +55,7 @@ type c08Case struct {
 type c08Reply struct {
 	Ok      bool              `json:"ok"`
 	Created []int             `json:"created"`
-	Readers [][]int           `json:"readers"` // [id, recvEnabled, selectBelow, kind]
+	Readers [][]int           `json:"readers"` // [id, recvEnabled, selectBelow, kind, listed]
 	Writers [][]int           `json:"writers"` // [id, sendCode, drainable, drainBound, cap]
 	At      int               `json:"at"`
 	Why     string            `json:"why"`
@@ -1278,7 +1278,7 @@ func c08RunConc(ctx *vh.Ctx, replay *c08Case) error {
 // ---- entry ----
 
 func runC08(ctx *vh.Ctx) error {
-	ctx.Res.Rule = "random op sequences (Pipe/FromArray/WithConvert/Copy/Merge constructors interleaved with Send, writer Close, Recv, reader Close; 20% of the items sent are error items at any position, of three kinds: opaque / wrapping io.EOF with %w / a type whose Is method claims io.EOF, all of them ordinary elements for the model; only ops the model says cannot block are issued) + tear-down that checks close/EOF propagation; plus concurrent runs of random trees (goroutine per end). non-trivial = the tree has a copy, merge or convert and at least one Recv; distinct by constructor skeleton and trace length"
+	ctx.Res.Rule = "random op sequences (Pipe/FromArray/WithConvert/Copy/Merge constructors interleaved with Send, writer Close, Recv, reader Close; 20% of the items sent are error items at any position, of three kinds: opaque / wrapping io.EOF with %w / a type whose Is method claims io.EOF, all of them ordinary elements for the model; only ops the model says cannot block are issued) + tear-down that checks close/EOF propagation; plus the family `late` (every third sequential case: a source is copied, the copies read ahead / lag behind / are closed, and only then an open copy is handed to Merge, Convert or a second Copy; also partially read arrays) and concurrent runs of random trees (goroutine per end). non-trivial = the tree has a copy, merge or convert and at least one Recv; distinct by constructor skeleton and trace length"
 	if ctx.Replay != nil {
 		var c c08Case
 		if err := json.Unmarshal(ctx.Replay, &c); err != nil {
@@ -1302,6 +1302,12 @@ func runC08(ctx *vh.Ctx) error {
 	for i := 0; i < nSeq && time.Since(ctx.Start) < seqBudget; i++ {
 		if i%12 == 5 {
 			if err := c08ArrMerge(ctx); err != nil {
+				return err
+			}
+			continue
+		}
+		if i%3 == 1 { // readers with history handed to a constructor (c08_late.go)
+			if err := c08Late(ctx); err != nil {
 				return err
 			}
 			continue
